@@ -13,6 +13,7 @@ import (
 
 func init() {
 	register(&Property{ID: "C28", Run: runC28, Mutants: []Mutant{
+		{Name: "LEB128 encoders share one package-level scratch buffer", File: "internal/wasm/leb128/encode.go", Old: "func EncodeUint32(v uint32) []byte {\n\tdst := make([]byte, 10)\n\tn := encodeUint64(uint64(v), dst)\n\treturn dst[:n]\n}", New: "var scratch [10]byte\n\nfunc EncodeUint32(v uint32) []byte {\n\tn := encodeUint64(uint64(v), scratch[:])\n\treturn append([]byte(nil), scratch[:n]...)\n}", Expect: "shared-state-write :: internal/wasm/leb128.scratch"},
 		{Name: "module output buffers go back to a pool while callers still hold their bytes", File: "internal/wazero/module.go", Old: "\t\"strings\"\n\n\t\"wa-lang.org/wa/internal/3rdparty/wazero\"", New: "\t\"strings\"\n\t\"sync\"\n\n\t\"wa-lang.org/wa/internal/3rdparty/wazero\"", Old2: "func (p *Module) Close() error {\n\tvar err error\n", New2: "var outputBufferPool sync.Pool\n\nfunc (p *Module) Close() error {\n\tvar err error\n\toutputBufferPool.Put(&p.stdoutBuffer)\n", Expect: "pooled-buffer-escape"},
 		{Name: "a request's sizes written into the shared per-arch table entry", File: "internal/loader/loader.go", Old: "\t} else {\n\t\treturn &types.StdSizes{\n\t\t\tWordSize: p.cfg.WaSizes.WordSize,\n\t\t\tMaxAlign: p.cfg.WaSizes.MaxAlign,\n\t\t}\n\t}", New: "\t}\n\tsizes, _ := types.SizesFor(p.GetTargetArch()).(*types.StdSizes)\n\tsizes.WordSize = p.cfg.WaSizes.WordSize\n\tsizes.MaxAlign = p.cfg.WaSizes.MaxAlign\n\treturn sizes", Expect: "shared-state-write :: internal/types.gcArchSizes"},
 		{Name: "compile lock released before the module is rendered (not deferred)", File: "internal/backends/compiler_wat/compile.go", Old: "\tcompileMu.Lock()\n\tdefer compileMu.Unlock()\n", New: "\tcompileMu.Lock()\n", Expect: "shared-state-write"},
